@@ -473,34 +473,44 @@ fn var_has_parentheses(var: &Var) -> bool {
     }
 }
 
+/// Whether the next statement begins with a parenthesised expression (e.g. `(foo)()` or `(foo).bar = 1`)
+fn next_stmt_begins_with_parentheses(
+    next_stmt: Option<&&(Stmt, Option<TokenReference>)>,
+) -> bool {
+    match next_stmt {
+        Some((Stmt::FunctionCall(function_call), _)) => match function_call.prefix() {
+            Prefix::Expression(expression) => {
+                matches!(&**expression, Expression::Parentheses { .. })
+            }
+            _ => false,
+        },
+        Some((Stmt::Assignment(assignment), _)) => match assignment.variables().iter().next() {
+            Some(var) => var_has_parentheses(var),
+            _ => false,
+        },
+        #[cfg(feature = "luau")]
+        Some((Stmt::CompoundAssignment(compound_assignment), _)) => {
+            var_has_parentheses(compound_assignment.lhs())
+        }
+        _ => false,
+    }
+}
+
 fn check_stmt_requires_semicolon(
     stmt: &Stmt,
     next_stmt: Option<&&(Stmt, Option<TokenReference>)>,
 ) -> bool {
     // Need to check next statement if it is a function call, with a parameters expression as the prefix
     // If so, removing a semicolon may lead to ambiguous syntax
-    // Ambiguous syntax can only occur if the current statement is a (Local)Assignment, FunctionCall or a Repeat block
+    // Ambiguous syntax can only occur if the current statement ends with an expression:
+    // a (Local/Compound)Assignment, FunctionCall or a Repeat block
     match stmt {
         Stmt::Assignment(_)
         | Stmt::LocalAssignment(_)
         | Stmt::FunctionCall(_)
-        | Stmt::Repeat(_) => match next_stmt {
-            Some((Stmt::FunctionCall(function_call), _)) => match function_call.prefix() {
-                Prefix::Expression(expression) => {
-                    matches!(&**expression, Expression::Parentheses { .. })
-                }
-                _ => false,
-            },
-            Some((Stmt::Assignment(assignment), _)) => match assignment.variables().iter().next() {
-                Some(var) => var_has_parentheses(var),
-                _ => false,
-            },
-            #[cfg(feature = "luau")]
-            Some((Stmt::CompoundAssignment(compound_assignment), _)) => {
-                var_has_parentheses(compound_assignment.lhs())
-            }
-            _ => false,
-        },
+        | Stmt::Repeat(_) => next_stmt_begins_with_parentheses(next_stmt),
+        #[cfg(feature = "luau")]
+        Stmt::CompoundAssignment(_) => next_stmt_begins_with_parentheses(next_stmt),
         _ => false,
     }
 }
